@@ -14,9 +14,9 @@ import route_common as rc
 NEEDS_SIMGRID = True
 LETTERS = "abcdef"
 KINDS = (("F", "floyd"), ("D", "dijkstra"), ("C", "dijkstracache"), ("R", "dijkstracache"), ("U", "full"))
-GRAPHS_PER_ENGINE = 150
+GRAPHS_PER_ENGINE = 40     # SimGrid's seal() and link creation are quadratic in the number of zones of an Engine
 BATCH_CPU = 60      # CPU seconds for an Engine with GRAPHS_PER_ENGINE graphs (normally < 2)
-SOLO_CPU = 5        # CPU seconds for one zone of <= 6 hosts (normally a few ms)
+SOLO_CPU = 2        # CPU seconds for one zone of <= 6 hosts (normally a few ms)
 
 
 # ------------------------------------------------------------------------------------------------ pair-state alphabets
@@ -205,11 +205,11 @@ def case_text(graphs, kinds=KINDS):
             z = "%s%s" % (gid, letter)
             lines += zone_lines(g, z, kind)
             if letter == "C":
-                queries += ["qall %s" % z, "qall %s" % z]          # miss, then hit
+                queries += ["qall %s noself" % z, "qall %s noself" % z]          # miss, then hit
             elif letter == "R":
-                queries += ["qall %s desc" % z]                     # sources in the opposite order
+                queries += ["qall %s desc noself" % z]              # sources in the opposite order
             else:
-                queries += ["qall %s" % z]
+                queries += ["qall %s noself" % z]
     return "\n".join(lines + ["links"] + queries)
 
 
@@ -343,6 +343,11 @@ def judge_graph(gid, g, results):
     for (s, d), c in sorted(counts.items()):
         if len(c) != 1:
             bad("algorithms-disagree", "all", "%s->%s" % (LETTERS[s], LETTERS[d]), "link counts %s" % sorted(c))
+    for (rule, kind) in list(probs):       # the cache variant shares the code: one report when both fail the same rule
+        if kind == "dijkstra" and (rule, "dijkstracache") in probs:
+            p = probs.pop((rule, kind))
+            probs.pop((rule, "dijkstracache"))
+            probs[(rule, "dijkstra*")] = (rule, "dijkstra*", p[2], p[3])
     plist = [probs[k] for k in sorted(probs)]
     return judged, nontrivial(n, w, dist), plist
 
@@ -393,26 +398,32 @@ def dead(r, kind="-"):
 
 # ------------------------------------------------------------------------------------------------ bounds
 def bounds_for(ctx):
-    """-> [(name, kind, payload)]: kind 'space' -> (n, states, want, shard depth) ; kind 'list' -> graphs"""
+    """-> [(name, kind, payload)]: kind 'space' -> (n, states, want, shard depth) ; kind 'list' -> graphs.
+    Cheap and diverse bounds first: a deadline then cuts the largest 4-node spaces, not the 5- and 6-node families."""
     full = alphabet((1, 2, 3))
     a13 = alphabet((1, 3))
-    a13q = [("-", 0, 0), ("s", 1, 1), ("s", 3, 3), ("f", 1, 0), ("b", 0, 1), ("f", 3, 0), ("b", 0, 3), ("2", 1, 3), ("2", 3, 1)]
+    a13q = [("-", 0, 0), ("s", 1, 1), ("s", 3, 3), ("f", 1, 0), ("b", 0, 1), ("f", 3, 0), ("b", 0, 3)]
+    a13m = a13q + [("2", 1, 3), ("2", 3, 1)]
+    weakq = [("-", 0, 0), ("f", 1, 0), ("b", 0, 1)]
+    weakt = [("-", 0, 0), ("s", 1, 1), ("f", 1, 0), ("b", 0, 1), ("f", 3, 0), ("b", 0, 3)]
+    a5 = [("-", 0, 0), ("s", 1, 1), ("s", 3, 3), ("f", 1, 0), ("b", 0, 1)]
+    sc = "all strongly connected digraphs up to isomorphism"
     b = [("n=2, one-hop routes of 1..3 links, symmetric / one-way / both ways declared one by one; strongly connected", "space", (2, full, "strong", 1)),
-         ("n=3, same alphabet (19 states per pair), all strongly connected digraphs up to isomorphism", "space", (3, full, "strong", 1)),
-         ("n=3, routes of 1 or 3 links (symmetric 1, one-way 1 or 3), weakly but not strongly connected digraphs (reachable pairs "
-          "judged)", "space", (3, [("-", 0, 0), ("s", 1, 1), ("f", 1, 0), ("b", 0, 1), ("f", 3, 0), ("b", 0, 3)], "weak-only", 1)),
-         ("n=4, routes of 1 or 3 links: symmetric, one-way, or both ways with different lengths (9 states per pair), all strongly "
-          "connected digraphs up to isomorphism", "space", (4, a13q, "strong", 2))]
+         ("n=3, same alphabet (19 states per pair), " + sc, "space", (3, full, "strong", 1))]
+    if ctx.quick:
+        b.append(("n=3, one-way routes of 1 link, weakly but not strongly connected digraphs (reachable pairs judged)", "space",
+                  (3, weakq, "weak-only", 1)))
+    else:
+        b.append(("n=3, routes of 1 or 3 links (symmetric 1, one-way 1 or 3), weakly but not strongly connected digraphs (reachable "
+                  "pairs judged)", "space", (3, weakt, "weak-only", 1)))
+    b.append(("n=4, routes of 1 or 3 links, symmetric or one-way (7 states per pair), " + sc, "space", (4, a13q, "strong", 2)))
     if not ctx.quick:
-        b.append(("n=4, routes of 1 or 3 links, all 11 states per pair, all strongly connected digraphs up to isomorphism", "space",
-                  (4, a13, "strong", 2)))
-        a5 = [("-", 0, 0), ("s", 1, 1), ("s", 3, 3), ("f", 1, 0), ("b", 0, 1)]
-        b += [("n=3, all 19 states per pair, weakly but not strongly connected digraphs (reachable pairs judged)", "space",
-               (3, full, "weak-only", 1)),
-              ("n=6, the 6 trees and the 6-cycle with symmetric routes of 1..3 links, the directed 6-cycle", "list", fixed_family_n6()),
-              ("n=5, symmetric routes of 1 or 3 links or one-way routes of 1 link (5 states per pair), strongly connected, up to isomorphism",
-               "space", (5, a5, "strong", 3)),
-              ("n=4, routes of 1..3 links (19 states per pair), all strongly connected digraphs up to isomorphism", "space", (4, full, "strong", 2))]
+        b += [("n=6, the 6 trees and the 6-cycle with symmetric routes of 1..3 links, the directed 6-cycle", "list", fixed_family_n6()),
+              ("n=5, symmetric routes of 1 or 3 links or one-way routes of 1 link (5 states per pair), " + sc, "space", (5, a5, "strong", 3)),
+              ("n=4, routes of 1 or 3 links: symmetric, one-way, or both ways with different lengths (9 states per pair), " + sc,
+               "space", (4, a13m, "strong", 2)),
+              ("n=4, routes of 1 or 3 links, all 11 states per pair, " + sc, "space", (4, a13, "strong", 2)),
+              ("n=4, routes of 1..3 links (19 states per pair), " + sc, "space", (4, full, "strong", 2))]
     return b
 
 
